@@ -1,8 +1,8 @@
 (* C01/Witness.v — non-vacuity examples (vm_compute) *)
 From Verif Require Import Common.Base C01.Model C01.Spec.
 
-Definition cfg10 := mkCfg 10 true.
-Definition cfg2 := mkCfg 2 true.
+Definition cfg10 := mkCfg 10 true false.
+Definition cfg2 := mkCfg 2 true false.
 
 (* a history with three deaths, two of them inside start-up recovery (the second one inside the
    recovery that follows a death inside recovery); afterwards one id is queued, one dispatched,
@@ -59,7 +59,7 @@ Qed.
    capacity 2, request 1 in flight while 2 and 3 refill the queue; the first drain incarnation's
    recovery cannot move 1 back (queue full), so 1 stays stored and listed; the second start moves
    it; after three drains nothing is durable and every accepted request is final. *)
-Example fits_ex : fits cfg2 /\ fits cfg10 /\ fits (mkCfg 3 false).
+Example fits_ex : fits cfg2 /\ fits cfg10 /\ fits (mkCfg 3 false false).
 Proof.
   repeat split; intros r; unfold sizeof, cfg2, cfg10; cbn [reqSized capacity]; try lia.
   assert (r mod 3 < 3)%N by (apply N.mod_upper_bound; discriminate). lia.
@@ -114,4 +114,27 @@ Proof. vm_compute. repeat split; reflexivity. Qed.
 Example split_ex :
   combine_outcomes [OFailed; OOk; OShutdown] = OShutdown /\ combine_outcomes [OShutdown; OFailed; OOk] = OShutdown /\
   combine_outcomes [OFailed; OOk] = OFailed /\ combine_outcomes [OOk; OOk] = OOk.
+Proof. vm_compute. repeat split; reflexivity. Qed.
+
+(* block_on_overflow: the hypothesis of pq_parked_start_changes_nothing is reachable (finding C01-RECOVERY-BLOCKS):
+   capacity 2, request 1 in flight, queue refilled with 2 and 3 — Start parks; with block_on_overflow off the same
+   store is recovered (the re-put is refused and kept) *)
+Definition cfg2b := mkCfg 2 true true.
+Example parked_ex :
+  let st := fst (run_history cfg2b store0 h_refill) in
+  run_act None st (initClient cfg2b) = (st, None, None) /\
+  snd (run_act None st (initClient cfg2)) <> None /\
+  durable_or_finalb st (snd (run_history cfg2b store0 h_refill)) = true.
+Proof. vm_compute. repeat split; try reflexivity. discriminate. Qed.
+
+(* an Offer that would wait returns ROfferWait and changes nothing *)
+Example offer_wait_ex :
+  map fst (i_obs (incarnation cfg2b store0 [Offer 1; Offer 2; Offer 3] None)) = [ROffer true; ROffer true; ROfferWait].
+Proof. vm_compute. reflexivity. Qed.
+
+(* itemDispatchingFinish with the combined and the list-only batch failing: body deleted, stale list entry kept *)
+Example finish_errors_ex :
+  let st := mkStore (Some 3%N) (Some 3%N) (Some [0; 1]%N) None [(0, 70); (1, 71)]%N in
+  let '(st', v', cls) := finish_with_errors true false true (mkVol 3%N 3%N [0; 1]%N 0 false 1 0) 0%N st in
+  s_di st' = Some [0; 1]%N /\ s_items st' = [(1, 71)]%N /\ cdi v' = [1]%N /\ cls = 2%nat.
 Proof. vm_compute. repeat split; reflexivity. Qed.
